@@ -166,6 +166,18 @@ func init() {
 			effects: map[string]string{"codec.EcbEncrypt": "", "w.WriteHeader": "", "io.WriteString": "", "base64.StdEncoding.EncodeToString": ""},
 			skip:    map[string]bool{"logc.Errorf": true}})
 
+		// the accesses of incrementCount to the shared history, in order (the steps of the interleaving model Conc)
+		c18Effects(s, e, c18EffSpec{rel: tokp, fn: "TokenParser.incrementCount", lean: "incrementCountEffects", depth: 0,
+			params:  "(expired present : Bool)",
+			conds:   map[string]string{"tp.resetTime+tp.resetDuration < now": "expired", "ok": "present"},
+			effects: map[string]string{"timex.Now": "", "tp.history.Range": "clear", "tp.history.Load": "", "atomic.AddUint64": "", "tp.history.Store": ""},
+			skip:    map[string]bool{"var count uint64 = 1": true}})
+		c18Effects(s, e, c18EffSpec{rel: tokp, fn: "TokenParser.loadCount", lean: "loadCountEffects", depth: 0,
+			params:  "(present : Bool)",
+			conds:   map[string]string{"ok": "present"},
+			effects: map[string]string{"tp.history.Load": ""},
+			skip:    map[string]bool{}, retVals: true})
+
 		// ---- round 5c: ParseToken's retry structure as a TYPED call list (symbolic execution: which secret each call gets)
 		c18ParseTokenCalls(s, e, tokp, "TokenParser.ParseToken", "parseTokenCalls")
 
@@ -879,6 +891,7 @@ type c18EffSpec struct {
 	depth                 int
 	conds, tags, effects  map[string]string
 	skip                  map[string]bool
+	retVals               bool // returns with values are effects ("return <values>")
 }
 
 func c18Effects(s *source, e *emitter, sp c18EffSpec) {
@@ -920,7 +933,19 @@ func c18Effects(s *source, e *emitter, sp c18EffSpec) {
 			return "", false, false
 		}
 		name := prefix + s.src(call.Fun)
-		if _, ok := sp.effects[name]; ok {
+		if alias, ok := sp.effects[name]; ok {
+			if alias != "" { // the argument is a function literal: the effect is named by what it does — and that is checked
+				fl, ok := (ast.Expr)(nil), false
+				if len(call.Args) == 1 {
+					fl, ok = call.Args[0], true
+				}
+				lit, isLit := fl.(*ast.FuncLit)
+				if !ok || !isLit || alias != "clear" || len(lit.Body.List) != 2 ||
+					s.src(lit.Body.List[0]) != "tp.history.Delete(key)" || s.src(lit.Body.List[1]) != "return true" {
+					return "", false, false
+				}
+				return name + " [" + alias + "]", true, false
+			}
 			var args []string
 			for _, a := range call.Args {
 				args = append(args, s.src(a))
@@ -954,6 +979,13 @@ func c18Effects(s *source, e *emitter, sp c18EffSpec) {
 			if len(x.Results) == 0 {
 				return "[]"
 			}
+			if sp.retVals {
+				var rs []string
+				for _, r := range x.Results {
+					rs = append(rs, s.src(r))
+				}
+				return "[" + leanString("return "+strings.Join(rs, ", ")) + "]"
+			}
 			return fail(st, "return with a value")
 		case *ast.ExprStmt:
 			return one(x.X, st, "", rest)
@@ -964,6 +996,11 @@ func c18Effects(s *source, e *emitter, sp c18EffSpec) {
 				return fail(st, "assignment")
 			}
 			return one(x.Rhs[0], st, "", rest)
+		case *ast.DeclStmt:
+			if sp.skip[s.src(st)] {
+				return trans(rest)
+			}
+			return fail(st, "declaration")
 		case *ast.BlockStmt:
 			return trans(append(append([]ast.Stmt{}, x.List...), rest...))
 		case *ast.IfStmt:
